@@ -195,7 +195,7 @@ func (r *runner) runScript(script [][][]*t_aio.Command, dialect string) (int, M)
 		obs := im.batch(txs)
 		if monitors["C14"] && prevDump != nil && obs["err"] == false {
 			// a search that is the first command of its batch is checked against the property itself
-			if len(txs) > 0 && len(txs[0]) > 0 && txs[0][0].Kind == t_aio.SearchPromises {
+			if len(txs) > 0 && len(txs[0]) > 0 && (txs[0][0].Kind == t_aio.SearchPromises || txs[0][0].Kind == t_aio.SearchSchedules) {
 				if res, ok := obs["results"].([]any); ok && len(res) > 0 {
 					cj, _ := lean.NormalizeValue(canon.Cmd(txs[0][0])["c"])
 					rj, _ := lean.NormalizeValue(res[0].([]any)[0])
@@ -203,7 +203,11 @@ func (r *runner) runScript(script [][][]*t_aio.Command, dialect string) (int, M)
 					for _, x := range rj.(map[string]any)["rows"].([]any) {
 						got = append(got, x.(map[string]any))
 					}
-					if what := monitor.SearchPromises(prevDump, cj.(map[string]any), got); what != "" {
+					oracle := monitor.SearchPromises
+					if txs[0][0].Kind == t_aio.SearchSchedules {
+						oracle = monitor.SearchSchedules
+					}
+					if what := oracle(prevDump, cj.(map[string]any), got); what != "" {
 						return bi, M{"what": "property monitor failed on the implementation", "property": "C14", "diff": what, "property_violation": true}
 					}
 					r.counts["search_checked"]++
@@ -224,7 +228,7 @@ func (r *runner) runScript(script [][][]*t_aio.Command, dialect string) (int, M)
 			return bi, M{"harness": err.Error(), "impl": obs}
 		}
 		if h, ok := obs["harness"]; ok {
-			return bi, M{"what": "implementation observation malformed", "detail": h, "impl": obs, "model": rep}
+			return bi, M{"what": "the store broke its completion contract (one completion per submission, one result per command, a batch fails or succeeds as a whole)", "diff": h, "detail": h, "impl": obs, "model": rep}
 		}
 		if p, ok := obs["panic"]; ok {
 			return bi, M{"what": "implementation panicked", "detail": p, "model": rep}
